@@ -188,9 +188,14 @@ def _presupposed(l):
     return out
 
 
-def contradicts(facts, l1, l2):
+def contradicts(facts, l1, l2, presuppose=False):
+    """presuppose: also use 'a literal reading the payload `(E as V).i` is only meaningful where E is a V'. Valid only
+    when both literals speak about ONE evaluation of E -- not for a global assumption in a function that evaluates E
+    again (`it.next()` in a loop) -- hence opt-in."""
     if implies(l1, negate(facts, l2)):
         return True
+    if not presuppose:
+        return False
     for a, b in ((l1, l2), (l2, l1)):
         if a[0] == "in":
             for e, v in _presupposed(b):
@@ -288,7 +293,8 @@ class PG:
         def const_or_tracked(dd):
             if dd[2] == "call":
                 e = a.expr_call(dd[3], (dd[0], "term"))
-                return e[0] == "enum"   # e.g. Option::from_residual(..), folded to None
+                # e.g. Option::from_residual(..), folded to None; Result::from_residual(..), folded to Err(..)
+                return e[0] == "enum" or (e[0] == "adt" and e[1].rsplit("::", 1)[0] in ("core::option::Option", "core::result::Result"))
             if dd[2] != "assign":
                 return False
             rv = dd[3]
@@ -555,8 +561,43 @@ class PG:
                 fpc[e] = self.prog.expr_footprint(e, self.fn)
             fp = fpc[e]
             from .prog import killed_rooted
-            c[k] = bool(fp) and bool(killed_rooted(self.prog.block_effects(self.fn, bi, None), fp))
+            c[k] = (bool(fp) and bool(killed_rooted(self.prog.block_effects(self.fn, bi, None), fp))) or self._reevaluates(bi, e)
         return c[k]
+
+    def _reevaluates(self, bi, e):
+        """does block bi compute anew something the expression stands for?  A call occurring in e is evaluated again by
+        a block whose terminator calls the same function (`it.next()` in a loop header is another element each time);
+        a local occurring in e is assigned, or mutably borrowed, in bi."""
+        info = self.__dict__.setdefault("_rx", {})
+        if e not in info:
+            calls, locs = set(), set()
+            for x in walk(e):
+                if x[0] == "call":
+                    calls.add(strip_generics(x[1]))
+                elif x[0] in ("local", "phi") and isinstance(x[1], int):
+                    locs.add(x[1])
+            info[e] = (calls, locs)
+        calls, locs = info[e]
+        if not calls and not locs:
+            return False
+        b = self.body.blocks[bi]
+        t = b["term"]
+        if t["k"] == "call":
+            fn = t.get("func", {}).get("const", {}).get("fn") if isinstance(t.get("func"), dict) else None
+            if fn and calls and strip_generics(fn.get("path") or fn.get("orig") or "") in calls:
+                return True
+            if t.get("dest") and t["dest"]["l"] in locs:
+                return True
+        if locs:
+            for st in b["stmts"]:
+                if st["k"] != "assign":
+                    continue
+                if st["place"]["l"] in locs:
+                    return True
+                rv = st["rv"]
+                if ("ref" in rv and rv.get("mut") and rv["ref"]["l"] in locs) or ("rawptr" in rv and rv["rawptr"]["l"] in locs):
+                    return True
+        return False
 
     def narrowing_subjects(self, acc):
         """enum-valued expressions tested more than once in this function such that the intersection of two of the
@@ -635,7 +676,7 @@ class PG:
                     fp |= self.prog.expr_footprint(e, self.fn)
                 from .prog import killed_rooted
                 for bi in range(len(self.body.blocks)):
-                    if fp and killed_rooted(self.prog.block_effects(self.fn, bi, None), fp):
+                    if (fp and killed_rooted(self.prog.block_effects(self.fn, bi, None), fp)) or any(self._reevaluates(bi, e) for e in subj):
                         subj = set()
                         break
             fresh, seen, work = set(), set(), [(0, ())]
@@ -677,12 +718,14 @@ class PG:
                     fp |= self.prog.expr_footprint(l[1], self.fn)
             kcache = {}
 
+            held_exprs = [l[1] for l in held if l[0] in ("is", "in", "notin")]
+
             def kills(bi):
                 if bi not in kcache:
-                    kcache[bi] = bool(fp) and killed_rooted(self.prog.block_effects(self.fn, bi, None), fp)
+                    kcache[bi] = (bool(fp) and bool(killed_rooted(self.prog.block_effects(self.fn, bi, None), fp))) or any(self._reevaluates(bi, e_) for e_ in held_exprs)
                 return kcache[bi]
             seen = set()
-            work = [(st, bool(fp))]
+            work = [(st, bool(held_exprs))]
             while work:
                 n, alive = work.pop()
                 if (n, alive) in seen:
@@ -799,7 +842,7 @@ class PG:
             work += [m for m, _ in self.edges[n] or []]
         return False
 
-    def reach(self, assume=None, start_block=0):
+    def reach(self, assume=None, start_block=0, presuppose=False):
         """Blocks reachable from entry over edges none of whose literals contradicts a literal in
         `assume` (list of literals)."""
         seen = set()
@@ -810,7 +853,7 @@ class PG:
                 continue
             seen.add(n)
             for m, lits in self.edges[n] or []:
-                if assume and any(contradicts(self.facts, a, l) for a in assume for l in lits):
+                if assume and any(contradicts(self.facts, a, l, presuppose) for a in assume for l in lits):
                     continue
                 if m not in seen:
                     work.append(m)
